@@ -434,6 +434,38 @@ func runUpgradeCase(ta *TestApp, seed uint64, idx int, rep *Report, profile stri
 			okTr, detail = false, fmt.Sprintf("%d recorded accounts before the upgrade, %d after it", len(legacyTraces), n)
 		}
 		rep.Eval("C17.upgrade_records_the_documented_lineage", okTr, idx, 1, detail)
+		// the same against the model (UpgradeTraces.v): per legacy record what the store holds under its address, then the number of records
+		cls := func(a string) int64 {
+			for i, x := range upgradeGenesisAddrs {
+				if x == a {
+					return int64(i)
+				}
+			}
+			for i, x := range upgradeFromPoolAddrs {
+				if x == a {
+					return int64(100 + i)
+				}
+			}
+			return -1
+		}
+		var leg, exp []string
+		other := int64(1000)
+		for _, lt := range legacyTraces {
+			c := cls(lt.Address)
+			if c < 0 {
+				c = other
+				other++
+			}
+			leg = append(leg, zPair(zI(int64(lt.Id)), zI(c)))
+			tr, found := k.GetVestingAccountTrace(ctx, lt.Address)
+			if !found {
+				exp = append(exp, "0", "0", "0", "0", "0")
+			} else {
+				exp = append(exp, "1", zI(int64(tr.Id)), zI(b2i(tr.Genesis)), zI(b2i(tr.FromGenesisPool)), zI(b2i(tr.FromGenesisAccount)))
+			}
+		}
+		exp = append(exp, zI(int64(len(k.GetAllVestingAccountTrace(ctx)))))
+		upgradeTraceTerms = append(upgradeTraceTerms, fmt.Sprintf("{| tc_id := %d; tc_legacy := %s; tc_expected := %s |}", idx, zList(leg), zList(exp)))
 	}
 	// ---- predicates
 	postAll := k.GetAllAccountVestingPools(ctx)
@@ -593,6 +625,9 @@ func runUpgradeCase(ta *TestApp, seed uint64, idx int, rep *Report, profile stri
 	_ = strings.Join
 	return fmt.Sprintf("{| uc_id := %d; uc_consts := %s;\n uc_pools := %s; uc_type_exists := %s;\n uc_expected := %s |}", idx, consts, modelPools, zBool(hasType), zListB(expected))
 }
+
+// terms of type UpgradeTraces.tcase collected while the cases of one harness run execute (written next to the pool cases)
+var upgradeTraceTerms []string
 
 // the accounts the v1.2.0 upgrade documents as genesis accounts and as accounts created from genesis pools
 var upgradeGenesisAddrs = []string{
